@@ -351,13 +351,15 @@ impl ExprStyle {
             return;
         }
         // a comment directly after `*` or `/` would read as `*/` or `//`: always separate with a space
-        match self.rng.below(12) {
+        match self.rng.below(13) {
             0 => out.push(' '),
             1 => out.push_str("  "),
             2 => out.push('\n'),
             3 => out.push('\t'),
             4 => out.push_str(" /* c */"),
             5 => out.push_str(" /*x*/ "),
+            // multi-line comment whose last line holds an astral character (position bookkeeping of skipped spans)
+            6 => out.push_str(" /* c\n\u{1d4b3} */"),
             _ => {}
         }
     }
